@@ -229,6 +229,20 @@ func Contents(names []string) []Content {
 	})
 	for _, nm := range names {
 		nm := nm
+		// a definition named over the alphabet that itself holds an inline complex schema (naming from a special name)
+		add("defWithInline["+nm+"]", "ref-local-inline", func(b *BundleSpec, s int) J {
+			b.Add(RootFile, P(J{"type": "object", "properties": J{"inner": simpleObj("inner"), "list": J{"type": "array", "items": simpleObj("listItem")}}}, "definitions", nm))
+			return LocalRef(nm)
+		})
+		// a self-recursive auxiliary definition named over the alphabet (rebasing of its own $ref)
+		add("selfRecursiveAuxNamed["+nm+"]", "recursive-aux", func(b *BundleSpec, s int) J {
+			b.Add(AuxA, P(J{"type": "object", "properties": J{"next": J{"$ref": "#/definitions/" + EscName(nm)}, "v": J{"type": "string"}}}, "definitions", nm))
+			b.Cyclic = true
+			return J{"$ref": AuxA + "#/definitions/" + EscName(nm)}
+		}).Aux = true
+	}
+	for _, nm := range names {
+		nm := nm
 		add("refLocal["+nm+"]", "ref-local", func(b *BundleSpec, s int) J {
 			b.Add(RootFile, P(simpleObj("local"), "definitions", nm))
 			return LocalRef(nm)
@@ -501,6 +515,19 @@ func OtherFeatures(names []string) []Feature {
 	})
 	add("secondPath", "nonschema", func(b *BundleSpec, s int) {
 		b.Add(RootFile, P(J{"operationId": "getOther"}, "paths", "/other path/{x}", "get"), P(J{"description": "ok", "schema": simpleObj("other")}, "paths", "/other path/{x}", "get", "responses", "200"))
+	})
+	add("twoPathsManglingAlike", "nonschema-names", func(b *BundleSpec, s int) {
+		// two operations without operationId whose generated keys are equal (GetAB)
+		for _, pt := range []string{"/a-b", "/a_b"} {
+			b.Add(RootFile, P(J{"description": "ok", "schema": simpleObj("resp" + pt[2:3])}, "paths", pt, "get", "responses", "200"),
+				P(J{"parameters": []any{J{"name": "body", "in": "body", "schema": simpleObj("body" + pt[2:3])}}}, "paths", pt, "get"))
+		}
+	})
+	add("pathPrefixOfAnother", "nonschema-names", func(b *BundleSpec, s int) {
+		// a path-level body parameter under /a, and operations under /ab (a path of which /a is a string prefix)
+		b.Add(RootFile, P(J{"parameters": []any{J{"name": "body", "in": "body", "schema": simpleObj("shared")}}}, "paths", "/a"),
+			P(J{"operationId": "getA"}, "paths", "/a", "get"), P(J{"description": "ok"}, "paths", "/a", "get", "responses", "200"),
+			P(J{"operationId": "getAB"}, "paths", "/ab", "get"), P(J{"description": "ok", "schema": simpleObj("ab")}, "paths", "/ab", "get", "responses", "200"))
 	})
 	add("noOperationId", "nonschema", func(b *BundleSpec, s int) {
 		b.Add(RootFile, P(J{"description": "ok", "schema": simpleObj("anon")}, "paths", "/anon", "put", "responses", "200"),
